@@ -246,15 +246,19 @@ Definition loc_ok (la lo : Z * Z * Z * Z * Z) (alt : Z) (sz hp vp : dbl) : Prop 
   (exists a', num_reparse (the_dbl (dbl_of_Z alt)) = FFin a' /\ dbl_round a' = alt) /\
   0 <= dm sz /\ 0 <= dm hp /\ 0 <= dm vp /\
   (loc_sizes_default sz hp vp = false ->
-     loc_size_ok (num_reparse sz) = Ok tt /\ loc_size_ok (num_reparse hp) = Ok tt /\ loc_size_ok (num_reparse vp) = Ok tt).
+     (exists s, loc_norm (num_reparse sz) = Ok s) /\ (exists s, loc_norm (num_reparse hp) = Ok s)
+     /\ (exists s, loc_norm (num_reparse vp) = Ok s)).
 
-(* what from_text returns: the sizes as re-read from their two-decimal text *)
+(* the value the wire form of a re-read size has (loc_norm succeeds under loc_ok) *)
+Definition norm_dbl (x : fval) : dbl := match loc_norm x with Ok d => d | _ => mkD false 0 (-1074) end.
+
+(* what from_text returns: the sizes re-read from their two-decimal text and cut to one digit times a power of ten *)
 Definition loc_expect (la lo : Z * Z * Z * Z * Z) (alt : Z) (sz hp vp : dbl) : tval :=
   if loc_sizes_default sz hp vp then VLoc la lo alt sz hp vp
-  else VLoc la lo alt (the_dbl (num_reparse sz)) (the_dbl (num_reparse hp)) (the_dbl (num_reparse vp)).
+  else VLoc la lo alt (norm_dbl (num_reparse sz)) (norm_dbl (num_reparse hp)) (norm_dbl (num_reparse vp)).
 
-Lemma default_sizes_ok : loc_size_ok (FFin loc_default_size) = Ok tt /\ loc_size_ok (FFin loc_default_hprec) = Ok tt
-  /\ loc_size_ok (FFin loc_default_vprec) = Ok tt.
+Lemma default_sizes_ok : loc_norm (FFin loc_default_size) = Ok loc_default_size /\ loc_norm (FFin loc_default_hprec) = Ok loc_default_hprec
+  /\ loc_norm (FFin loc_default_vprec) = Ok loc_default_vprec.
 Proof. repeat split; vm_compute; reflexivity. Qed.
 
 Lemma dbl_eqb_eq a b : dbl_eqb a b = true -> dm b <> 0 -> a = b.
@@ -340,26 +344,26 @@ Proof.
     rewrite (dbl_eqb_eq _ _ E1 ltac:(vm_compute; discriminate)), (dbl_eqb_eq _ _ E2 ltac:(vm_compute; discriminate)),
             (dbl_eqb_eq _ _ E3 ltac:(vm_compute; discriminate)).
     eexists. split; [reflexivity|]. left. exists te. split; [reflexivity|exact H1].
-  - destruct (Hsz eq_refl) as (K1 & K2 & K3).
+  - destruct (Hsz eq_refl) as ((k1 & K1) & (k2 & K2) & (k3 & K3)).
     destruct (loc_meters_text sz M1) as (_ & S1 & N1). destruct (loc_meters_text hp M2) as (_ & S2 & N2).
     destruct (loc_meters_text vp M3) as (_ & S3 & N3).
     rewrite (grl3 _ _ _ R S1 N1 S2 N2 S3 N3 (line_end_word_end_l R HR)). cbn [bind fst snd map_res].
     rewrite (meters_token sz M1), (meters_token hp M2), (meters_token vp M3). cbn [bind nth].
-    rewrite K1, K2, K3. cbn [bind]. rewrite C1, C2. cbn [negb orb].
+    unfold norm_dbl. rewrite K1, K2, K3. cbn [bind]. rewrite C1, C2. cbn [negb orb].
     replace ((alt <? -10000000) || (alt >=? 4284967296)) with false by lia.
     eexists. split; [reflexivity|]. right. reflexivity.
 Qed.
 
 (* ---------- the numbers that occur in records read from wire ---------- *)
-(* sizes: base * 10^exponent centimetres, base and exponent 0..9 (RFC 1876): re-reading the two-decimal text keeps
-   int(size), hence the encoded octet *)
+(* sizes: base * 10^exponent centimetres, base and exponent 0..9 (RFC 1876): the two-decimal text is read back to
+   exactly the same value *)
 Definition wire_size (b e : Z) : dbl := the_dbl (round_q false (b * 10 ^ e) 1).
 
 Definition size_rt_ok (be : Z * Z) : bool :=
   let x := wire_size (fst be) (snd be) in
-  match num_reparse x with
-  | FFin y => (dbl_trunc y =? dbl_trunc x) && match loc_size_ok (FFin y) with Ok _ => true | _ => false end && (0 <=? dm x)
-  | FInf _ => false
+  match loc_norm (num_reparse x) with
+  | Ok y => (dm y =? dm x) && (de y =? de x) && Bool.eqb (dneg y) (dneg x) && (0 <=? dm x)
+  | _ => false
   end.
 
 Definition all_sizes : list (Z * Z) := flat_map (fun b => map (fun e => (b, e)) [0; 1; 2; 3; 4; 5; 6; 7; 8; 9]) [0; 1; 2; 3; 4; 5; 6; 7; 8; 9].
@@ -368,8 +372,7 @@ Lemma wire_sizes_roundtrip : forallb size_rt_ok all_sizes = true.
 Proof. vm_compute. reflexivity. Qed.
 
 Theorem wire_size_roundtrip b e : 0 <= b <= 9 -> 0 <= e <= 9 ->
-  exists y, num_reparse (wire_size b e) = FFin y /\ dbl_trunc y = dbl_trunc (wire_size b e) /\
-    loc_size_ok (FFin y) = Ok tt /\ 0 <= dm (wire_size b e).
+  loc_norm (num_reparse (wire_size b e)) = Ok (wire_size b e) /\ 0 <= dm (wire_size b e).
 Proof.
   intros Hb He. pose proof wire_sizes_roundtrip as G. rewrite forallb_forall in G. specialize (G (b, e)).
   assert (Hin : In (b, e) all_sizes).
@@ -377,10 +380,10 @@ Proof.
     - cbn [In]. lia.
     - apply in_map_iff. exists e. split; [reflexivity|]. cbn [In]. lia. }
   specialize (G Hin). unfold size_rt_ok in G. cbn [fst snd] in G.
-  destruct (num_reparse (wire_size b e)) as [y|]; [|discriminate]. exists y. split; [reflexivity|].
-  apply andb_true_iff in G as [G G3]. apply andb_true_iff in G as [G1 G2].
-  split; [apply Z.eqb_eq, G1|]. split; [|lia].
-  destruct (loc_size_ok (FFin y)) as [[]| |]; [reflexivity|discriminate|discriminate].
+  destruct (loc_norm (num_reparse (wire_size b e))) as [y| |]; try discriminate.
+  apply andb_true_iff in G as [G G4]. apply andb_true_iff in G as [G G3]. apply andb_true_iff in G as [G1 G2].
+  split; [|lia]. f_equal. destruct y as [ny my ey], (wire_size b e) as [nx mx ex]. cbn [dm de dneg] in *.
+  apply Z.eqb_eq in G1. apply Z.eqb_eq in G2. apply Bool.eqb_prop in G3. subst. reflexivity.
 Qed.
 
 (* altitude: see Proofs/RdTextLocAlt.v (error bounds on the correctly rounded operations, whole wire range) *)
